@@ -8,9 +8,9 @@ package main
 
 import (
 	"fmt"
-	"sort"
 	"go/token"
 	"go/types"
+	"sort"
 	"strings"
 
 	"golang.org/x/tools/go/ssa"
